@@ -90,6 +90,7 @@ func internalizeFamily(p *core.Prog) (walkerFamily, map[*types.Named]*types.Func
 }
 
 func c16(r *core.Report) {
+	c16SameTarget(r)
 	p := r.Prog
 	pk := p.Pkg("openapi3")
 	info := pk.TypesInfo
@@ -745,4 +746,42 @@ func everyCycleGuarded(cg interface{}, cs *crashScope, fn *ssa.Function) bool {
 		return true
 	}
 	return !dfs(fn)
+}
+
+// c16SameTarget: two references designate the same thing only when their whole locations agree.
+func c16SameTarget(r *core.Report) {
+	p := r.Prog
+	info := p.Pkg("openapi3").TypesInfo
+	r.RunRule("C16.sametarget", "a reference is replaced by a root component only when both designate the same target: refersToSameDocument (case 2 of ReferencesComponentInRootDocument, which DefaultRefNameResolver uses to reuse a root component's name) hands the two recorded locations to referenceURIMatch as they are, and neither of the two functions clears or ignores the fragment of what it compares (the comparison is on the full URL text); a reference to an element inside a file (`file.yml#/properties/x`) otherwise matches a root component that is a reference to the whole file, and is rewritten to point at it", 2, func() {
+		for _, name := range []string{"refersToSameDocument", "referenceURIMatch"} {
+			fd := p.DeclOf("openapi3", name)
+			bad := ""
+			ast.Inspect(fd.Body, func(n ast.Node) bool {
+				as, ok := n.(*ast.AssignStmt)
+				if !ok {
+					return true
+				}
+				for _, l := range as.Lhs {
+					if sel, ok := ast.Unparen(l).(*ast.SelectorExpr); ok {
+						if f := core.FieldSel(info, sel); f != nil && f.Pkg() != nil && f.Pkg().Path() == "net/url" && (f.Name() == "Fragment" || f.Name() == "RawFragment") {
+							bad = p.Pos(as.Pos())
+						}
+					}
+				}
+				return true
+			})
+			r.Check(bad == "", "sametarget:"+name+"/fragment", p.Pos(fd.Pos()), "the fragment takes part in the comparison", name+" clears the fragment of a location it compares ("+bad+"): a reference to an element of a file is taken for a reference to the whole file")
+		}
+		// referenceURIMatch compares the full text
+		fd := p.DeclOf("openapi3", "referenceURIMatch")
+		okCmp := false
+		forEachReturnStmt(fd.Body, func(ret *ast.ReturnStmt) {
+			if len(ret.Results) == 1 {
+				if be, ok := ast.Unparen(ret.Results[0]).(*ast.BinaryExpr); ok && be.Op == token.EQL && strings.HasSuffix(core.ExprStr(be.X), ".String()") && strings.HasSuffix(core.ExprStr(be.Y), ".String()") {
+					okCmp = true
+				}
+			}
+		})
+		r.Check(okCmp, "sametarget:referenceURIMatch/full-text", p.Pos(fd.Pos()), "compares the full URL text", "referenceURIMatch no longer compares the complete text of the two locations")
+	})
 }
